@@ -297,70 +297,10 @@ func runC09(args []string) error {
 // messages must still be ONE point-in-time view; (b) a sequence obtained, then other commands applied (they reuse the
 // pooled key buffers), then consumed, must still respect its bounds.
 func runC09Lazy(sum *Summary) error {
-	join := func(chunks []*regattapb.ResponseOp_Range) string {
-		var sb strings.Builder
-		for _, ch := range chunks {
-			for _, kv := range ch.Kvs {
-				c := byte('-')
-				if len(kv.Value) > 0 {
-					c = kv.Value[0]
-				}
-				fmt.Fprintf(&sb, "%s=%c%d;", kv.Key, c, len(kv.Value))
-			}
-		}
-		return sb.String()
-	}
+	join := joinChunks
 	// (a)
-	{
-		f, _, err := newRealFSM(vfs.NewMem(), fsm.RecoveryTypeSnapshot)
-		if err != nil {
-			return err
-		}
-		var es []gEntry
-		for i := 0; i < 7; i++ {
-			es = append(es, gEntry{Idx: uint64(i + 1), Cmd: gCmd{Kind: regattapb.Command_PUT, K: []byte(fmt.Sprintf("big/%02d", i)), V: bytes.Repeat([]byte{'o'}, 1300*1024)}})
-		}
-		if _, _, err := f.apply(es); err != nil {
-			return err
-		}
-		q := gRange{Key: []byte("big/"), End: []byte("big0")}
-		oldC, err := f.iterate(q)
-		if err != nil {
-			return err
-		}
-		v, err := f.f.Lookup(fsm.IteratorRequest{RangeOp: q.pb()})
-		if err != nil {
-			return err
-		}
-		pull, stop := iter.Pull(v.(iter.Seq[*regattapb.ResponseOp_Range]))
-		var got []*regattapb.ResponseOp_Range
-		first, ok := pull()
-		if ok {
-			got = append(got, first)
-		}
-		if _, _, err := f.apply([]gEntry{{Idx: 8, Cmd: gCmd{Kind: regattapb.Command_TXN, Succ: []gOp{
-			{Kind: 1, K: []byte("big/00"), V: bytes.Repeat([]byte{'n'}, 1300*1024)}, {Kind: 1, K: []byte("big/06"), V: bytes.Repeat([]byte{'n'}, 1300*1024)}}}}}); err != nil {
-			return err
-		}
-		for ok {
-			var ch *regattapb.ResponseOp_Range
-			ch, ok = pull()
-			if ok {
-				got = append(got, ch)
-			}
-		}
-		stop()
-		newC, err := f.iterate(q)
-		if err != nil {
-			return err
-		}
-		sum.Evaluations++
-		sum.hist("lazy").Inc("write between two messages of a stream")
-		if g := join(got); g != join(oldC) && g != join(newC) {
-			sum.violate(200001, "a streamed range read mixes two states of the table", map[string]any{"scenario": "7 pairs of 1.3 MiB; first message consumed; one transaction overwrites the first and the last key; rest consumed", "messages": len(got)},
-				fmt.Sprintf("stream %s; before the write %s; after it %s", g, join(oldC), join(newC)))
-		}
-		f.close()
+	if err := lazyStreamOneState(sum, join); err != nil {
+		return err
 	}
 	// (b)
 	{
@@ -404,4 +344,73 @@ func runC09Lazy(sum *Summary) error {
 		f.close()
 	}
 	return nil
+}
+
+// lazyStreamOneState: a streamed range read of several messages with a transaction applied between two messages is
+// the table before or after the transaction, never a mix (used by C09 and C10).
+func lazyStreamOneState(sum *Summary, join func([]*regattapb.ResponseOp_Range) string) error {
+	f, _, err := newRealFSM(vfs.NewMem(), fsm.RecoveryTypeSnapshot)
+	if err != nil {
+		return err
+	}
+	var es []gEntry
+	for i := 0; i < 7; i++ {
+		es = append(es, gEntry{Idx: uint64(i + 1), Cmd: gCmd{Kind: regattapb.Command_PUT, K: []byte(fmt.Sprintf("big/%02d", i)), V: bytes.Repeat([]byte{'o'}, 1300*1024)}})
+	}
+	if _, _, err := f.apply(es); err != nil {
+		return err
+	}
+	q := gRange{Key: []byte("big/"), End: []byte("big0")}
+	oldC, err := f.iterate(q)
+	if err != nil {
+		return err
+	}
+	v, err := f.f.Lookup(fsm.IteratorRequest{RangeOp: q.pb()})
+	if err != nil {
+		return err
+	}
+	pull, stop := iter.Pull(v.(iter.Seq[*regattapb.ResponseOp_Range]))
+	var got []*regattapb.ResponseOp_Range
+	first, ok := pull()
+	if ok {
+		got = append(got, first)
+	}
+	if _, _, err := f.apply([]gEntry{{Idx: 8, Cmd: gCmd{Kind: regattapb.Command_TXN, Succ: []gOp{
+		{Kind: 1, K: []byte("big/00"), V: bytes.Repeat([]byte{'n'}, 1300*1024)}, {Kind: 1, K: []byte("big/06"), V: bytes.Repeat([]byte{'n'}, 1300*1024)}}}}}); err != nil {
+		return err
+	}
+	for ok {
+		var ch *regattapb.ResponseOp_Range
+		ch, ok = pull()
+		if ok {
+			got = append(got, ch)
+		}
+	}
+	stop()
+	newC, err := f.iterate(q)
+	if err != nil {
+		return err
+	}
+	sum.Evaluations++
+	sum.hist("lazy").Inc("write between two messages of a stream")
+	if g := join(got); g != join(oldC) && g != join(newC) {
+		sum.violate(200001, "a streamed range read mixes two states of the table", map[string]any{"scenario": "7 pairs of 1.3 MiB; first message consumed; one transaction overwrites the first and the last key; rest consumed", "messages": len(got)},
+			fmt.Sprintf("stream %s; before the write %s; after it %s", g, join(oldC), join(newC)))
+	}
+	f.close()
+	return nil
+}
+
+func joinChunks(chunks []*regattapb.ResponseOp_Range) string {
+	var sb strings.Builder
+	for _, ch := range chunks {
+		for _, kv := range ch.Kvs {
+			c := byte('-')
+			if len(kv.Value) > 0 {
+				c = kv.Value[0]
+			}
+			fmt.Fprintf(&sb, "%s=%c%d;", kv.Key, c, len(kv.Value))
+		}
+	}
+	return sb.String()
 }
